@@ -15,11 +15,14 @@ def chrom(c, style):
     return base if style == "" else "chr" + base
 
 
-def make_ga(cls, rows, meta=None):
-    """rows: list of dicts (one representative row per class)"""
+def make_ga(cls, rows, meta=None, index="range"):
+    """rows: list of dicts (one representative row per class).  index="any": the caller's table may carry any index
+    (filtered / subset rows), so label-aligned stores of fresh Series are hazards"""
     n = len(rows)
-    cols = {c: Vec(r[c] for r in rows) for c in rows[0]} if rows else {}
-    return GA(cls, cols, n, meta)
+    cols = {c: Vec((r[c] for r in rows), aligned=True) for c in rows[0]} if rows else {}
+    g = GA(cls, cols, n, meta)
+    g.data.index = index
+    return g
 
 
 def par_model(model=None):
